@@ -354,6 +354,7 @@ let () =
   let ic = if Array.length Sys.argv > 1 then open_in Sys.argv.(1) else stdin in
   let state = ref Dead in
   let step_no = ref 0 in
+  let dump_every = ref 1 in
   (try
     while true do
       let line = input_line ic in
@@ -365,10 +366,12 @@ let () =
                if String.length t > 4 && String.sub t 0 4 = "cap=" then ios (String.sub t 4 (String.length t - 4)) else a) 0 rest in
            pr "H %s %s cap=%d\n" hid target cap;
            step_no := 0;
+           dump_every := List.fold_left (fun a t ->
+               if String.length t > 5 && String.sub t 0 5 = "dump=" then ios (String.sub t 5 (String.length t - 5)) else a) 1 rest;
            (match target with
             | "rust" ->
                 (match b_new (nat_of_int cap) with
-                 | Some b -> pr "O new=Ok\n"; dump_s3 (flatten b); dump_s2 (flatten b); state := Tree b
+                 | Some b -> pr "O new=Ok\n"; dump_s3 (flatten_fast b); dump_s2 (flatten_fast b); state := Tree b
                  | None -> pr "O new=Err(InvalidCapacity)\n"; state := Dead)
             | "arena" -> state := Arena a_new; dump_arena a_new
             | _ -> state := Dead)
@@ -380,7 +383,7 @@ let () =
                 (match parse_edit (List.tl toks) with
                  | None -> pr "O ?unparsed %s\n" line
                  | Some e ->
-                     let h0 = flatten b in
+                     let h0 = flatten_fast b in
                      let h = apply_edit h0 e in
                      pr "O edited\n"; dump_s3 h; dump_s2 h;
                      (* an edit that changed nothing leaves the model in tree state *)
@@ -407,11 +410,12 @@ let () =
                  | None -> pr "O ?unparsed %s\n" line
                  | Some o ->
                      let (b', out) = step b o in
+                     let dumping = (!step_no mod !dump_every = 0) in
                      (* run-time cross-check of the two models: the arena-level mutators of
                         Rust/HeapOps.v applied to the layout of b must give the layout of b' *)
-                     let ab_ok = (match mut_A (flatten b) o with
+                     let ab_ok = (not dumping) || (match mut_A (flatten_fast b) o with
                        | None -> true
-                       | Some (Ok (h', out')) -> h' = flatten b' && out' = out
+                       | Some (Ok (h', out')) -> h' = flatten_fast b' && out' = out
                        | Some (Panic _) -> out = UPanic
                        | Some OutOfFuel -> out = UFuel
                        | Some (UB _) -> out = UUB) in
@@ -420,8 +424,8 @@ let () =
                      (match out with
                       | UPanic | UFuel | UUB -> state := Dead
                       | _ ->
-                          let h = flatten b' in
-                          dump_s3 h; dump_s2 h; state := Tree b'))
+                          (if dumping then (let h = flatten_fast b' in dump_s3 h; dump_s2 h));
+                          state := Tree b'))
             | Arena a ->
                 (match toks with
                  | "A" :: atoks ->
